@@ -41,6 +41,11 @@ func recoverQueue(c *core.Case, cfg QConfig, img []byte, res *core.Result, what 
 	fail := func(rule, format string, args ...interface{}) {
 		res.Violate("C06", rule, rule, what+": "+fmt.Sprintf(format, args...), map[string]interface{}{"config": cfg})
 	}
+	// structure: no page of the recovered queue's page list may be a free page of the file
+	if pg, n, bad := chainPageFree(q.F, int(cfg.File.PageSize)); bad {
+		fail("recovered-chain-page-free", "page %d of the recovered queue's page list (%d pages walked) is in the free list of the file: events that are still pending would be overwritten by the next flush", pg, n)
+		return nil, 0, false
+	}
 	var err error
 	if q.guard("Pending", func() { pending, err = q.Q.Pending() }) {
 		adopt()
@@ -153,6 +158,33 @@ func runQCrashCase(c *core.Case) *core.Result {
 		g.Ops = 40 + r.Intn(160)
 	}
 	prog := genQProgram(r, g, ps)
+	if c.Idx%8 == 5 {
+		// one ACK that frees many pages (more than any batch size an
+		// implementation might use): 40-70 page sized events, flushed, read
+		// and ACKed with a single call, followed by new events that re-use pages
+		prog = nil
+		n := 40 + r.Intn(31)
+		for i := 0; i < n; i++ {
+			prog = append(prog, QOp{K: QWrite, A: ps - szEventPageHeader - szEventHeader - r.Intn(3)})
+			if r.Chance(1, 12) {
+				prog = append(prog, QOp{K: QFlush})
+			}
+		}
+		prog = append(prog, QOp{K: QFlush}, QOp{K: QRBegin})
+		for i := 0; i < n; i++ {
+			prog = append(prog, QOp{K: QRNext}, QOp{K: QRRead, A: 1 << 20})
+		}
+		prog = append(prog, QOp{K: QRDone}, QOp{K: QAck, A: n - r.Intn(3)})
+		for i := 0; i < 6+r.Intn(10); i++ {
+			prog = append(prog, QOp{K: QWrite, A: 1 + r.Intn(2*ps)})
+		}
+		prog = append(prog, QOp{K: QFlush})
+		if cfg.File.MaxPages > 0 && cfg.File.MaxPages < n+48 {
+			cfg.File.MaxPages = n + 48 + r.Intn(16)
+			cfg.File.DiskCap = (cfg.File.MaxPages + 128) * int(cfg.File.PageSize)
+		}
+		res.Add("big_ack_histories", 1)
+	}
 	q := NewQWorld(cfg, QMon{Property: "C06"}, r, res)
 	q.Markers = true
 	q.TraceOn = c.Verbose
